@@ -160,6 +160,47 @@ def cases(desc):
                         for j in range(k)]
                 yield "very-wide-group", {"root": {"name": "W", "rels": [{"min": 1, "max": 1, "children": [{"name": "First", "rels": []}]},
                                                                          {"min": mn, "max": mx, "children": kids}]}, "ctcs": []}
+    # groups of more than 1024 members (one of them not a leaf), and a feature with more than 1000 one-child relations
+    for wi, k in enumerate((1100, 2050)):
+        if (wi + 3) % n == i:
+            for mn, mx in ((2, -1), (2, k), (0, 1), (1, 1), (1, k)):
+                kids = [{"name": f"G{j}", "rels": [{"min": 0, "max": 1, "children": [{"name": f"G{j}o", "rels": []}]}] if j == 7 else []}
+                        for j in range(k)]
+                yield "very-wide-group", {"root": {"name": "W", "rels": [{"min": mn, "max": mx, "children": kids}]}, "ctcs": []}
+    for wi, k in enumerate((1100,)):
+        if (wi + 6) % n == i:
+            rels = [{"min": j % 2, "max": 1, "children": [{"name": f"Item{j:04d}", "rels": []}]} for j in range(k)]
+            yield "very-wide-and", {"root": {"name": "Catalogue", "rels": rels}, "ctcs": []}
+    # deep AND branching: at every level a shallower sibling is listed BEFORE the child that continues the spine; some
+    # levels have two relations whose children have different numbers of configurations
+    for wi, depth in enumerate((300, 700, 1300)):
+        if (wi + 11) % n == i:
+            root = cur = {"name": "B0", "rels": []}
+            for j in range(1, depth):
+                nxt = {"name": f"B{j}", "rels": []}
+                if j % 5 == 0:
+                    cur["rels"].append({"min": 0, "max": 1, "children": [{"name": f"S{j}", "rels": [
+                        {"min": 0, "max": 1, "children": [{"name": f"S{j}x", "rels": []}]}]}]})
+                    cur["rels"].append({"min": 1, "max": 1, "children": [{"name": f"M{j}", "rels": []}]})
+                elif j % 3 == 0:
+                    cur["rels"].append({"min": 0, "max": 1, "children": [{"name": f"S{j}", "rels": []}]})
+                cur["rels"].append({"min": 1 if j % 50 else 0, "max": 1, "children": [nxt]})
+                cur = nxt
+            yield "very-deep-branching", {"root": root, "ctcs": []}
+    # several requires constraints from always-selected features to features nested in one another's mandatory subtree
+    if i == 4 % n:
+        import itertools
+        tree = {"name": "R", "rels": [
+            {"min": 1, "max": 1, "children": [{"name": "A", "rels": []}]},
+            {"min": 1, "max": 1, "children": [{"name": "Bm", "rels": []}]},
+            {"min": 0, "max": 1, "children": [{"name": "X", "rels": [
+                {"min": 1, "max": 1, "children": [{"name": "Y", "rels": [{"min": 1, "max": 1, "children": [{"name": "Z", "rels": []}]}]}]},
+                {"min": 0, "max": 1, "children": [{"name": "Q", "rels": []}]}]}]},
+            {"min": 0, "max": 1, "children": [{"name": "Other", "rels": []}]}]}
+        reqs = [["REQUIRES", "A", "Y"], ["REQUIRES", "R", "X"], ["REQUIRES", "Bm", "Z"], ["IMPLIES", "A", "X"], ["REQUIRES", "Other", "Q"]]
+        for kk in (2, 3):
+            for combo in itertools.permutations(reqs, kk):
+                yield "requires-nested-targets", {"root": tree, "ctcs": [{"name": f"c{q}", "ast": a} for q, a in enumerate(combo)]}
     # chains deeper than a default Python stack, alternating optional/mandatory links
     for wi, depth in enumerate((600, 1500, 3000)):
         if (wi + 9) % n == i:
